@@ -174,7 +174,7 @@ class TU:
             live = [w for i, w in enumerate(live) if i not in bad]
         else:
             raise Broken("wrapper TU %s/%s: could not isolate failing wrappers" % (self.cfg.name, self.tag))
-        if not self.post and self.opt == ("-O2",):
+        if not self.post and self.opt and self.opt[0] == "-O2":
             # a wrapper that still calls a function defined in the module (an AVEL routine clang's cost model
             # left out of line) would make the summary opaque: inline it (-O2 again with an unbounded
             # inlining threshold; modules without such calls are left exactly as clang produced them)
